@@ -87,58 +87,80 @@ def _run_text(conn_a, conn_b, case):
     return {"real": real, "real_exc": real_exc, "real_table": real_table, "twin": twin, "twin_exc": twin_exc, "twin_table": twin_table}
 
 
-NOP_SETS = [None, [], ["^call "], [r"^CALL\s", r"create\s+stage"], ["^insert", r"^ *select 'x'"], [r"^/\* *skip"], [".*drop"], ["^nomatch$"], ["(?i)^SELECT 2"], ["call ", "stage", "base"]]
+NOP_SETS = [None, [], ["^call "], [r"^CALL\s", r"create\s+stage"], ["^insert", r"^ *select 'x'"], [r"^/\* *skip"], [".*drop"], ["^nomatch$"], ["(?i)^SELECT 2"],
+            ["call ", "stage", "base"],
+            # sets of ≥ 2 patterns, each valid on its own, that mean something else when glued together: a back-reference, an inline
+            # flag, a named group used twice, a conditional group in a later pattern
+            [r"^(CALL|GRANT)\b", r"""^ALTER\s+SESSION\s+SET\s+\w+\s*=\s*(['"]).*\1\s*$"""],
+            ["^call ", r"(?s)^create\s+stage.*url"],
+            [r"^(?P<kw>call)\s", r"^(?P<kw>grant)\s"],
+            [r"^(x)?select 77$", r"^(alter )?(?(1)session|create\s+stage)"],
+            [r"^select 'x'$", r"(?i)^INSERT"]]
 NOP_CMDS = [("call foo()", None), (" CALL foo()", None), ("CaLl foo(1, 'a;b')", None), ("create stage s1", None), ("CREATE   STAGE s1 url='x'", None),
             ("insert into t values (1, 'x')", None), ("INSERT INTO t values (2, 'y')", None), ("select 'x'", None), ("select %s", ("x",)), ("select %s", ("y",)),
             ("/* skip */ insert into t values (3, 'z')", None), ("/*skip*/ select nonsense from", None), ("drop table t2", None), ("select 'drop'", None),
-            ("select 1", None), ("select 2", None), ("select 'create  stage', 'call me'", None), ("update t set v = 'call ' where v = 'base'", None), ("nomatch", None), ("delete from t where id = 1", None)]
+            ("select 1", None), ("select 2", None), ("select 'create  stage', 'call me'", None), ("update t set v = 'call ' where v = 'base'", None),
+            ("nomatch", None), ("delete from t where id = 1", None),
+            ("alter session set query_tag = 'x'", None), ("ALTER SESSION SET QUERY_TAG = \"q\"", None), ("alter session set query_tag = 'x\"", None),
+            ("grant select on t to role r", None), ("create stage s2\n url='x'", None), ("alter session set a = 1", None), ("alter table t set comment = 'c3'", None),
+            ("comment on table t is 'c4'", None)]
 NOP_TEXTS = ["call foo(); select 1", " call foo()", "-- c\ncall foo()", "insert into t values (5, 'a;b'); select 'x'; /* skip */ select 3", "select 2; drop table t2; select 'x'",
-             "create stage s; insert into t values (6, 'q')"]
+             "create stage s; insert into t values (6, 'q')", "call foo(); grant select on t to role r", "alter session set query_tag = 'x'; select 1"]
 
 
 def _run_nop(pats):
-    """every command under patch(nop_regexes=pats): result, table after"""
+    """every command under patch(nop_regexes=pats), each from the same initial state: (result, full state before, full state after)"""
     import fakesnow
     import snowflake.connector as sc
     out = []
     with fakesnow.patch(nop_regexes=pats):
         conn = sc.connect(database="d", schema="s")
-        # set-up through an option-free path is not possible: use statements no pattern set matches
         for cmd, params in NOP_CMDS:
             _reset(conn)
+            before = _state(conn)
             cur = conn.cursor()
             try:
                 cur.execute(cmd, params)
                 r = ("rows", [[canon(c) for c in row] for row in cur.fetchall()], [d.name for d in cur.description], cur.rowcount)
             except Exception as e:  # noqa: BLE001
                 r = _err(e)
-            t2 = _exists(conn)
-            out.append((r, _table(conn), t2))
+            out.append((r, before, _state(conn)))
         for text in NOP_TEXTS:
             _reset(conn)
+            before = _state(conn)
             try:
                 r = [("rows", [[canon(c) for c in row] for row in c.fetchall()], None, c.rowcount) for c in conn.execute_string(text)]
             except Exception as e:  # noqa: BLE001
                 r = _err(e)
-            out.append((r, _table(conn), _exists(conn)))
+            out.append((r, before, _state(conn)))
     return out
 
 
-BASE = [[("int", 100), ("str", "base")]]
-
-
 def _reset(conn):
-    """same initial state before every command, built with statements no pattern set matches"""
-    conn.cursor().execute("create or replace table t as select 100 as id, 'base'::varchar as v")
-    conn.cursor().execute("create or replace table t2 as select 1 as id")
+    """same initial state before every command, built with statements no pattern set matches; the table has a comment that was
+    set by COMMENT ON and then changed by ALTER TABLE (side tables hold state a no-op'ed statement must not touch)"""
+    for q in ("create or replace table t as select 100 as id, 'base'::varchar as v", "create or replace table t2 as select 1 as id",
+              "comment on table t is 'c1'", "alter table t set comment = 'c2'"):
+        try:
+            conn.cursor().execute(q)
+        except Exception:  # noqa: BLE001  (shows up in the state dump)
+            pass
 
 
-def _exists(conn):
+def _q(conn, sql):
     try:
-        conn.cursor().execute("select count(*) from t2")
-        return True
-    except Exception:  # noqa: BLE001
-        return False
+        cur = conn.cursor()
+        cur.execute(sql)
+        return [[canon(c) for c in r] for r in cur.fetchall()]
+    except Exception as e:  # noqa: BLE001  (a missing table is an observation, not a harness failure)
+        return [["unreadable", type(e).__name__]]
+
+
+def _state(conn):
+    """full dump of what a statement could have touched: rows, tables, comments, columns"""
+    return {"t": _q(conn, "select id, v from t order by id"), "t2": _q(conn, "select id from t2 order by id"),
+            "tables": _q(conn, "select table_name, table_type, comment from information_schema.tables where table_schema = 'S' order by table_name"),
+            "columns": _q(conn, "select table_name, column_name, data_type, comment from information_schema.columns where table_schema = 'S' order by table_name, ordinal_position")}
 
 
 def _worker(shard):
@@ -247,7 +269,7 @@ def _judge_nop(chk, pats, with_opt, without_opt):
                 vec = [bool(re.match(p, t, re.IGNORECASE)) for p in (pats or [])]
                 lines.append(f"split\tnop\t{1 if pats is not None else 0}\t" + enc_list(["1" if v else "0" for v in vec]))
     reps = iter(common.batch(lines))
-    for (cmd, params, how), texts, (r, tbl, t2), (r0, tbl0, t20) in zip(cmds, metas, with_opt, without_opt):
+    for (cmd, params, how), texts, (r, before, after), (r0, before0, after0) in zip(cmds, metas, with_opt, without_opt):
         decisions = [next(reps)["nop"] == "1" for _ in texts]
         case = {"kind": "nop", "pats": pats, "cmd": cmd, "params": params, "how": how}
         chk.case(("nop", repr(pats), cmd, repr(params), how), nontrivial=bool(pats))
@@ -260,8 +282,8 @@ def _judge_nop(chk, pats, with_opt, without_opt):
                     chk.violation(f"nop_regexes={pats}: `{cmd}` {params or ''} matches ({texts[0]!r}) but returned {_short(r)} instead of the success status", case,
                                   broken="C16_nop_matches (correspondence Fs.Split.nopDecision)")
                 case["effect_check"] = True
-            elif (r, tbl, t2) != (r0, tbl0, t20):
-                chk.violation(f"nop_regexes={pats}: `{cmd}` {params or ''} matches no pattern but behaves differently from an instance without the option: {_short((r, tbl, t2))} vs {_short((r0, tbl0, t20))}",
+            elif (r, after) != (r0, after0):
+                chk.violation(f"nop_regexes={pats}: `{cmd}` {params or ''} matches no pattern but behaves differently from an instance without the option: {_short((r, _diff(after, after0)))} vs {_short((r0, _diff(after0, after)))}",
                               case, broken="C16_nop_no_match (correspondence Fs.Split.nopDecision)")
         else:
             if isinstance(r, tuple) and r and r[0] == "err":
@@ -269,13 +291,18 @@ def _judge_nop(chk, pats, with_opt, without_opt):
             else:
                 got = [x[1] for x in r]
             if all(not d for d in decisions):
-                if (r, tbl, t2) != (r0, tbl0, t20):
-                    chk.violation(f"nop_regexes={pats}: execute_string(`{cmd}`) matches no pattern but differs from an instance without the option: {_short(r)} vs {_short(r0)}",
+                if (r, after) != (r0, after0):
+                    chk.violation(f"nop_regexes={pats}: execute_string(`{cmd}`) matches no pattern but differs from an instance without the option: {_short((r, _diff(after, after0)))} vs {_short((r0, _diff(after0, after)))}",
                                   case, broken="C16_nop_no_match")
             elif isinstance(got, list):
                 for d, g, t in zip(decisions, got, texts):
                     if d and g != [OK]:
                         chk.violation(f"nop_regexes={pats}: statement `{t}` of execute_string(`{cmd}`) matches but returned {g}", case, broken="C16_nop_matches")
+                if all(decisions) and after != before:
+                    chk.violation(f"nop_regexes={pats}: every statement of execute_string(`{cmd}`) matches, yet the state changed: {_diff(before, after)} → {_diff(after, before)}",
+                                  case, broken="C16_nop_matches / C16_nop_history (no effect)")
+            elif all(decisions):
+                chk.violation(f"nop_regexes={pats}: every statement of execute_string(`{cmd}`) matches but it raised {got}", case, broken="C16_nop_matches")
     return
 
 
@@ -284,14 +311,20 @@ def _short(x):
     return s if len(s) < 300 else s[:300] + "…"
 
 
+def _diff(a, b):
+    """the parts of state dump a that differ from b"""
+    return {k: v for k, v in a.items() if b.get(k) != v}
+
+
 def _nop_effects(chk, pats, with_opt, without_opt):
-    """a matching command has no effect: the tables after it are the tables before it (reset before every command)"""
-    for (cmd, params), (r, tbl, t2) in zip(NOP_CMDS, with_opt):
+    """a matching command has no effect: the full state dump after it (rows, tables, comments, columns) = the dump before it"""
+    for (cmd, params), (r, before, after) in zip(NOP_CMDS, with_opt):
         text = cmd % tuple("'" + x + "'" for x in params) if params else cmd
         matched = bool(pats) and any(re.match(p, text, re.IGNORECASE) for p in pats)
-        if matched and (tbl, t2) != (BASE, True):
-            chk.violation(f"nop_regexes={pats}: `{cmd}` matches but changed the tables: before {(BASE, True)}, after {(tbl, t2)}", {"kind": "nop", "pats": pats, "cmd": cmd},
-                          broken="C16_nop_matches (no effect)")
+        if matched and after != before:
+            chk.violation(f"nop_regexes={pats}: after `comment on table t is 'c1'; alter table t set comment = 'c2'` the statement `{cmd}` matches a pattern "
+                          f"but changed the state: before {_diff(before, after)}, after {_diff(after, before)}", {"kind": "nop", "pats": pats, "cmd": cmd},
+                          broken="C16_nop_matches / C16_nop_history (no effect)")
 
 
 def gen_cases(chk):
@@ -399,7 +432,7 @@ def run(chk) -> None:
     chk.rule = ("statement lists of 1-7 insert/update/delete/select statements with adversarial literal contents (quotes, backslashes, ;, --, /*, $$, control chars, "
                 "unicode; $$-strings; quoted identifier with ;), separators `;` with whitespace / line and block comments / empty statements, leading and trailing "
                 "comments, 2 of 5 texts with a statement that fails at execution resp. does not parse at a random position, tuple and dict cursors, return_cursors "
-                "on/off; 10 nop pattern sets × 20 commands (plain execute, with parameters) × 6 execute_string texts.  non-trivial = distinct text with ≥ 2 statements")
+                "on/off; 15 nop pattern sets (5 of them with back-references / inline flags / named or conditional groups in a later pattern) × 28 commands, each after COMMENT ON + ALTER … SET COMMENT with a full state dump (rows, tables, comments, columns) before and after (plain execute, with parameters) × 8 execute_string texts.  non-trivial = distinct text with ≥ 2 statements")
     gen_ties(chk)
     cases = gen_cases(chk) + [{"kind": "nop", "pats": p} for p in NOP_SETS]
     _execute(chk, cases)
